@@ -772,7 +772,7 @@ def run(ctx, fam, bound, names=None, chunk=6, only=None):
     # three-thread scenarios are explored with one preemption less
     bnd = {n: (max(1, bound - 1) if n in THREE_THREADS else bound) for n in names}
     first = ctx.pmap(_worker, [(fam, n, bnd[n], None, True) for n in names])
-    tot = {'executions': 0, 'points_max': 0, 'deadlocks': 0}
+    tot = {'executions': 0, 'points_max': 0, 'deadlocks': 0, 'diverged': 0}
     outcomes = {n: set() for n in names}
     jobs = []
     results = list(first)
@@ -788,6 +788,7 @@ def run(ctx, fam, bound, names=None, chunk=6, only=None):
         tot['executions'] += stats.get('executions', 0)
         tot['points_max'] = max(tot['points_max'], stats.get('points_max', 0))
         tot['deadlocks'] += stats.get('deadlocks', 0)
+        tot['diverged'] += stats.get('diverged', 0)
         outcomes[name] |= outs
         for key, (what, choices, sw) in found.items():
             if only is not None:
@@ -797,6 +798,10 @@ def run(ctx, fam, bound, names=None, chunk=6, only=None):
                 key = key.split(':', 1)[1]
             ctx.violation(key + '@threads:' + name, "%s; scenario %r, schedule (point, thread, at, switch to): %s" % (
                 what, name, sw[:6]), {'thread_scenario': name, 'family': fam, 'choices': choices, 'only': list(only or [])})
+    if tot['diverged']:
+        ctx.cov['thread_replay_divergences'] = ctx.cov.get('thread_replay_divergences', 0) + tot['diverged']
+        ctx.notes.append("thread schedules (%s): %d prefixes did not replay to the same labels - the code under test keeps state "
+                         "across executions; those sub-trees were skipped" % (fam, tot['diverged']))
     tot['scenarios'] = len(names)
     tot['preemption_bound'] = bnd
     tot['distinct_outcomes'] = {n: len(o) for n, o in outcomes.items()}
